@@ -435,7 +435,8 @@ impl Session {
             let off = o.hdr_off.unwrap();
             let mut ok = true;
             for i in off..off + hl {
-                if !cfg!(miri) && uninit && has_poison_word(&after[i * HSZ..(i + 1) * HSZ]) {
+                // (also on init entry points: a kept value may carry a slot an earlier uninit call left unwritten)
+                if !cfg!(miri) && has_poison_word(&after[i * HSZ..(i + 1) * HSZ]) {
                     o.poison_exposed = true;
                     ok = false;
                 }
@@ -443,6 +444,16 @@ impl Session {
             ok
         } else {
             o.headers_untouched
+        };
+        // whatever `headers` refers to (possibly a slice an earlier call on this value installed):
+        // never read a slot in which a pointer or length word is still unwritten
+        let exposed_ok = exposed_ok && {
+            let raw = raw_bytes(hp, hl * HSZ);
+            let clean = cfg!(miri) || !raw.chunks_exact(HSZ).any(has_poison_word);
+            if !clean {
+                o.poison_exposed = true;
+            }
+            clean
         };
         if exposed_ok {
             let hs: &[Header<'static>] = match self.val.as_ref().unwrap() {
